@@ -19,7 +19,7 @@ from fractions import Fraction
 from vf import refsem
 from vf.c10_field import (
     UNDEF, DRef, DualEval, Field, FloatSkip, NotInFragment, Skip, call_class, float_dual,
-    math_call,
+    math_call, user_call,
 )
 from vf.localise import localise
 from vf.refsem import UnknownVariable
@@ -53,6 +53,11 @@ DEEP_MAX = 6                                         # "cse-deep": nesting depth
 TAIL_X = (20.0, -20.0, 400.0, -400.0, 800.0, -800.0)  # "tails": float points far from the origin
 TAIL_Y = (1.0, -0.5)
 TAIL_RTOL, TAIL_ATOL = 1e-9, 1e-12
+# "fpow": powers of powers with non-integer constant exponents, judged in floats on both sides of 0
+FPOW_X = (3.0, 0.75, -0.75, -3.0)
+FPOW_Y = (2.0, -0.5)
+FPOW_INNER = (2, 3, -2, 4, 0.5)
+FPOW_OUTER = (0.5, 1.5, -0.5, 2.5, 2, -1)
 MAX_ARITY = 3                                        # "arity" family: table names x 0..3 arguments
 # constants whose CPython hashes collide (hash(-1) == hash(-2), hash(0) == hash(2**61-1)): two
 # sibling nodes differing only in such a pair have equal hashes without being equal; and constants
@@ -179,7 +184,7 @@ def depends(s, dv) -> bool:
     return dv in value_leaves(s)
 
 
-def required_levels(s, dvars):
+def required_levels(s, dvars, user=None):
     """-> ([level needed for dvars[k]: constructs whose subtree mentions the variable],
             level needed by any construct, {level: construct name})   3 = never allowed."""
     active = [0] * len(dvars)
@@ -190,6 +195,8 @@ def required_levels(s, dvars):
         if c[0] == "If":
             lv, nm = 2, "If"
         elif c[0] == "Call":
+            if user and user_call(c, user) is not None:
+                continue            # known to the caller-supplied table
             cls = call_class(c)
             if cls == "log2":
                 anyl = 3            # may be refused under every setting, never has to be
@@ -247,16 +254,45 @@ def dvars_for(spec):
 
 # {{{ running the code under test
 
-def run_diff(expr, dv, form, setting):
+def user_func_map(i, func, pars, allowed_nonsmoothness="none"):
+    """The caller-supplied derivative table handed to the code under test in the "funcmap"
+    family (documented signature (arg_index, function, parameters)): partial derivatives of
+    q(u, v) = u*u*v + 3*v and t3(u, v, w) = u*v*v + w**3*u; everything else is delegated to the
+    built-in table."""
+    import pymbolic.primitives as p
+    from pymbolic.mapper.differentiator import map_math_functions_by_name
+    if func == p.Variable("q") and len(pars) == 2:
+        u, v = pars
+        return [2*u*v, u*u + 3][i]
+    if func == p.Variable("t3") and len(pars) == 3:
+        u, v, w = pars
+        return [v*v + w**3, 2*u*v, 3*w*w*u][i]
+    return map_math_functions_by_name(i, func, pars,
+                                      allowed_nonsmoothness=allowed_nonsmoothness)
+
+
+# the ORACLE's view of the same two functions: (arity, value, partials), on field values
+USER_FUNCS = {
+    "q": (2, lambda u, v: u * u * v + 3 * v,
+          [lambda u, v: 2 * u * v, lambda u, v: u * u + 3]),
+    "t3": (3, lambda u, v, w: u * v * v + w * w * w * u,
+           [lambda u, v, w: v * v + w * w * w, lambda u, v, w: 2 * u * v,
+            lambda u, v, w: 3 * w * w * u]),
+}
+
+
+def run_diff(expr, dv, form, setting, user=False):
     """-> ('ok', result spec) | ('err', class name, message)"""
-    from pymbolic.mapper.differentiator import DifferentiationMapper, differentiate
+    from pymbolic.mapper.differentiator import (
+        DifferentiationMapper, differentiate, map_math_functions_by_name)
+    fm = user_func_map if user else map_math_functions_by_name
     try:
         if form == "name":
-            res = differentiate(expr, dv[1][1], allowed_nonsmoothness=setting)
+            res = differentiate(expr, dv[1][1], fm, allowed_nonsmoothness=setting)
         elif form == "direct":
-            res = DifferentiationMapper(build(dv), allowed_nonsmoothness=None)(expr)
+            res = DifferentiationMapper(build(dv), fm, allowed_nonsmoothness=None)(expr)
         else:
-            res = differentiate(expr, build(dv), allowed_nonsmoothness=setting)
+            res = differentiate(expr, build(dv), fm, allowed_nonsmoothness=setting)
     except RecursionError:
         raise
     except Exception as e:  # noqa: BLE001
@@ -283,12 +319,14 @@ def configs_for(dv):
 class PointOracle:
     """Oracle values of one input at one point, lazily, with the shared Field."""
 
-    def __init__(self, spec, point, dvars):
+    def __init__(self, spec, point, dvars, user=None):
         self.fld = Field()
         self.point = point
+        self.user = user
         self.status = "ok"
         try:
-            self.val, self.dual = DualEval(self.fld, point, dvars, _depends_k(dvars)).ev(spec)
+            self.val, self.dual = DualEval(self.fld, point, dvars, _depends_k(dvars),
+                                           user).ev(spec)
         except Skip as e:
             self.status = "skip:" + e.reason.split(":")[0]
         except ZeroDivisionError:
@@ -301,7 +339,7 @@ class PointOracle:
         """-> ('ok', value, used_bare_log) | ('undefined', why) | ('noteval', why)"""
         if rspec in self.cache:
             return self.cache[rspec]
-        ref = DRef(self.fld, self.point, bare_log=ACCEPT_BARE_LOG)
+        ref = DRef(self.fld, self.point, bare_log=ACCEPT_BARE_LOG, user=self.user)
         try:
             out = ("ok", ref(rspec), ref.used_bare_log)
         except Skip as e:
@@ -345,7 +383,8 @@ def examine(spec, tier, grid="std", r=None, first_only=True):
     except Exception:  # noqa: BLE001
         return []
     dvars = dvars_for(spec)
-    active, anyl, cnames = required_levels(spec, dvars)
+    user = USER_FUNCS if grid == "user" else None
+    active, anyl, cnames = required_levels(spec, dvars, user)
     fails = []
     seen_kinds = set()
 
@@ -359,7 +398,7 @@ def examine(spec, tier, grid="std", r=None, first_only=True):
     nontrivial = False
     for k, dv in enumerate(dvars):
         for form, setting in configs_for(dv):
-            out = run_diff(expr, dv, form, setting)
+            out = run_diff(expr, dv, form, setting, user is not None)
             if r is not None:
                 r.evals += 1
             lvl = LEVEL[setting]
@@ -390,7 +429,7 @@ def examine(spec, tier, grid="std", r=None, first_only=True):
             distinct.setdefault((k, rs), (form, setting))
         checked_pts = 0
         for pt in points_for(spec, tier, grid):
-            po = PointOracle(spec, pt, dvars)
+            po = PointOracle(spec, pt, dvars, user)
             if r is not None:
                 r.count("points")
             if po.status != "ok":
@@ -435,7 +474,7 @@ def examine(spec, tier, grid="std", r=None, first_only=True):
 _TAIL_ERRORS = (OverflowError, ValueError, ZeroDivisionError, FloatSkip)
 
 
-def examine_tail(spec, r):
+def examine_tail(spec, r, xs=TAIL_X, ys=TAIL_Y):
     """The returned derivative, evaluated with Python's math in floats, must be evaluable (no
     exception) and agree with the textbook forward-mode value at every tail point where the
     input's value and every intermediate of the textbook rules are finite floats."""
@@ -453,8 +492,8 @@ def examine_tail(spec, r):
         if out[0] == "err":
             fails.append((f"raises:{out[1]}", f"{cfg} raised {out[1]}({out[2]})"))
             continue
-        for x0 in TAIL_X:
-            for y0 in (TAIL_Y if Y in leaves else TAIL_Y[:1]):
+        for x0 in xs:
+            for y0 in (ys if Y in leaves else ys[:1]):
                 env = {"x": x0, "y": y0}
                 r.count("tail_points")
                 try:
@@ -470,7 +509,7 @@ def examine_tail(spec, r):
                     kind = f"tail-undefined:{got[1]}"
                     detail = (f"{cfg} = {show(out[1])} raises {got[1]}({got[2]}) at {env}; the "
                               f"input is evaluable there and its derivative is {want!r}")
-                elif not isinstance(got[1], (int, float)) or \
+                elif isinstance(got[1], complex) or not isinstance(got[1], (int, float)) or \
                         not abs(got[1] - want) <= TAIL_RTOL * abs(want) + TAIL_ATOL:
                     kind = "tail-value"
                     detail = f"{cfg} = {show(out[1])} evaluates to {got[1]!r} at {env}, " \
@@ -566,7 +605,11 @@ class C10(Check):
             "and both orders, pairs of sibling CSEs whose bodies are the same tower (4 kinds) of "
             "depth 1..6 and differ only in the innermost leaf, every table function of 5 inner "
             "arguments x 5 parents evaluated with Python's math in floats at |x| = 20, 400, 800 "
-            "(tails), and all call "
+            "(tails), (b**m)**n and b**n for 4 bases x 5 inner x 6 outer constant exponents incl. "
+            "non-integer ones x 5 parents in floats at x = +-3, +-0.75 (fpow), calls of two "
+            "caller-supplied functions (2 / 3 arguments, index-dependent derivative table passed "
+            "as func_mapper / func_map) over every argument tuple of variables, literals and "
+            "composites x 4 parents (funcmap), and all call "
             "histories up to length 2/3 over {differentiate(), one re-used mapper instance per "
             "variable} x {x, y} x 5 CSE expressions. Each expression x every value leaf, an "
             "absent name and an absent subscript as differentiation variable (object / name / "
@@ -592,7 +635,7 @@ class C10(Check):
         "variable may either be refused or be differentiated (to the correct value); when its "
         "argument mentions the variable refusal (any exception) is demanded",
         "0**0 = 1 in the returned expression (Python's convention)",
-        "tails family only: floats are the deciding domain there (evaluability of the returned "
+        "tails and fpow families only: floats are the deciding domain there (evaluability of the returned "
         "expression with Python's math where the input and every intermediate of the textbook "
         "forward-mode rules are finite; agreement within rtol 1e-9 + atol 1e-12); the oracle's "
         "float table uses for every function a formula that is evaluable wherever the function "
@@ -616,6 +659,8 @@ class C10(Check):
             ("arity", self.gen_arity),
             ("cse-deep", self.gen_cse_deep),
             ("tails", self.gen_tails),
+            ("fpow", self.gen_fpow),
+            ("funcmap", self.gen_funcmap),
             ("cse-histories", lambda: self.gen_histories(tier)),
         ]
         if tier == "thorough":
@@ -745,6 +790,40 @@ class C10(Check):
                 for ctx in ctxs:
                     yield ("t", ctx(call))
 
+    def gen_fpow(self):
+        """(b**m)**n and b**n for every inner / outer constant exponent incl. non-integer ones,
+        bare and below four parents; evaluated in floats at positive AND negative points (the exact
+        field cannot hold |x|)."""
+        bases = (X, Sum(X, C(1)), Prod(X, Y), Prod(C(2), X))
+        ctxs = (lambda c, b: c, lambda c, b: Quot(C(1), c), lambda c, b: Prod(c, X),
+                lambda c, b: Quot(X, c), lambda c, b: Sum(c, b))
+        for b in bases:
+            cores = [Pow(b, C(n)) for n in FPOW_OUTER]
+            cores += [Pow(Pow(b, C(m)), C(n)) for m in FPOW_INNER for n in FPOW_OUTER]
+            for core in cores:
+                for ctx in ctxs:
+                    yield ("fp", ctx(core, b))
+
+    def gen_funcmap(self):
+        """Calls of two caller-supplied functions (2 and 3 arguments) whose derivative table
+        uses the argument index: every argument tuple over variables, literals and composites
+        (literals before and after variable arguments), bare and below three parents, through
+        func_mapper of differentiate() and func_map of DifferentiationMapper."""
+        args2 = (X, Y, C(2), C(-1), Prod(X, Y), mcall("sin", X))
+        args3 = (X, Y, C(2))
+        ctxs = (lambda c: c, lambda c: Prod(c, X), lambda c: mcall("sin", c), lambda c: CSE(c))
+        for a in args2:
+            for b in args2:
+                for ctx in ctxs:
+                    yield ("e", ctx(Call(V("q"), a, b)), "user")
+        for abc in itertools.product(args3, repeat=3):
+            for ctx in ctxs:
+                yield ("e", ctx(Call(V("t3"), *abc)), "user")
+        # wrong arity / unknown name next to the table: still refused
+        for e in (Call(V("q"), X), Call(V("q"), X, Y, X), Call(V("t3"), X, Y), Call(V("f"), X, Y),
+                  Call(V("q"), Call(V("f"), X), Y)):
+            yield ("e", e, "user")
+
     def gen_arity(self):
         """Every name of the derivative table called with every arity 0..3 other than (and
         including) the one the table knows, arguments over x, y, 2, bare and below five parents:
@@ -820,8 +899,9 @@ class C10(Check):
                 sig = "history:" + kind + "|" + " ; ".join(f"{e}:d/d{v}:e{i}" for e, v, i in pre)
                 r.fail("history:" + kind, sig, detail, witness=("h", pre))
             return r
-        if item[0] == "t":
-            for kind, detail in examine_tail(item[1], r):
+        if item[0] in ("t", "fp"):
+            xs, ys = (TAIL_X, TAIL_Y) if item[0] == "t" else (FPOW_X, FPOW_Y)
+            for kind, detail in examine_tail(item[1], r, xs, ys):
                 r.fail(kind, f"{kind}|{show(canon_vars(item[1]))}", detail, witness=item)
             return r
         spec = item[1]
